@@ -135,7 +135,8 @@ class P(vlib.Prop):
                3: "clause-whole-value-typed (whole_value_typed)",
                4: "clause-cycle-not-refused (identity_cycle_rejected)",
                5: "clause-resolvable-but-refused (resolve_tree_leafwise + token/plain clauses)",
-               6: "clause-merge (resolve_reference_free_is_merge)"}
+               6: "clause-merge (resolve_reference_free_is_merge)",
+               7: "internal-wrapper-leaked (ToStringMap holds the internal expandedValue pair: tostringmap_typed)"}
 
     def extra_checks(self, ctx):
         """Decidable clause checkers (coq/C12/Clauses.v prop_ok) over EVERY observed case: an oracle that does not
@@ -152,10 +153,10 @@ class P(vlib.Prop):
         terms = [c["term"] for c in ctx.cases]
         failed = vlib.coq_eval_cases(ctx, "C12.Harness C12.Clauses", "prop_ok", self.case_type, terms, shard=self.shard)
         ctx.extra_coverage["clause_checker"] = {"fn": "C12.Clauses.prop_ok", "cases": len(terms), "violations": len(failed)}
+        import re as _re
         for i in failed[:6]:
             t = terms[i]
             codes = vlib.coq_eval_term(ctx, "C12.Harness C12.Clauses", "clause_codes %s" % t) if len(t) < 400000 else "?"
-            import re as _re
             m = _re.search(r"\[([0-9; ]*)\]", codes.split("=", 1)[-1])
             ids = [int(x) for x in _re.findall(r"\d+", m.group(1))] if m else []
             kind = self.CLAUSES.get(ids[0], "clause-unknown").split(" ")[0] if ids else "clause-unknown"
